@@ -109,4 +109,40 @@ theorem Full_scan_opsH_unsat (Inv : ∀ cfg, Disp (FullStH cfg) → Prop) : ¬ F
   simp only [Prod.mk.injEq] at hk
   omega
 
+/-! ## a statement that can be true
+
+Two repairs are possible. (A) Weaken `CtlRelG.ops`: an operation that fails identically in both runs need not re-establish
+the invariant (the form of `LexE.OpsLexE`, Lemmas/LexOnlyE.lean) — then `RelI.parse_relG` cannot go through
+`RelE.parse_relE` any more, the two-directive chain has to be redone in that form. (B) Keep `CtlRelG` and put the
+dispatcher's watermark into the guard, so that the one non-`NP` failure both runs share is refused BEFORE the
+controller is called: `wmGuard`. "The watermark guard never fires" is the register invariant of package inv
+(`PInv` / `SInv`: `remaining_content_start ≤ lexeme_start`), a run-level fact like the kind guard's.
+
+With (B) every failure of a guarded operation on a valid lexeme from a protocol state is a callback error: the tag-name,
+`to_token` and text-raw slices are valid (`TagArgsOK`, `NTLexValid`), `emit_chunk_before_lexeme` is in range (watermark), the
+internal error "Tag should be a start tag" is the kind guard's case. -/
+
+/-- the site of `emit_chunk_before_lexeme` -/
+def wmSite : String := "emit_chunk_before_lexeme: range out of bounds"
+
+/-- **the watermark guard**: the lexeme does not start before `remaining_content_start` -/
+def wmGuard {γ : Type} : SGuard (Disp γ) :=
+  { tag := fun _ lx d => if d.rcs ≤ lx.raw.start then none else some (.panic wmSite)
+    nonTag := fun _ lx d => if d.rcs ≤ lx.raw.start then none else some (.panic wmSite) }
+
+/-- first `K1`, then `K2` -/
+def andGuard {κ : Type} (K1 K2 : SGuard κ) : SGuard κ :=
+  { tag := fun inp lx k => match K1.tag inp lx k with | some e => some e | none => K2.tag inp lx k
+    nonTag := fun inp lx k => match K1.nonTag inp lx k with | some e => some e | none => K2.nonTag inp lx k }
+
+/-- **the repaired operation-level hypothesis** (NOT proved): as `Full_scan_opsH_statement`, with the watermark guard
+added under the argument guard and next to the kind guard. -/
+def Full_scan_opsW_statement (Inv : ∀ cfg, Disp (FullStH cfg) → Prop) : Prop :=
+  ∀ cfg : Cfg, (∀ enc, Inv cfg (Disp.new (fullCtlH cfg) (FullSt.init cfg, none) enc)) ∧
+    CtlRelG (genWorldH cfg) (cleanCtlH cfg) (withArgs argSite (andGuard kindGuard wmGuard)) (Inv cfg) NP
+
+/-- the counterexample above is gone: the second operation is refused by the watermark guard, in the state it was called in -/
+example : ((guardS (withArgs argSite (andGuard kindGuard wmGuard)) (dispOps (fullCtlH hazardCfg))).handleTag hzInp hzLx2 hzD1).2 =
+    .error (.panic wmSite) := by decide +kernel
+
 end LolHtml.Thm.Full
